@@ -193,6 +193,12 @@ func genC01(t *rapid.T) c1Case {
 					}
 				}
 			}
+			// an import declaration of the generator's own (blank import for side effects) in front of everything it renders for
+			// the package
+			if (tk.typ == "T0" || tk.typ == "S0") && rapid.IntRange(0, 7).Draw(t, "ownimport") == 0 {
+				pieces = append([]script.Piece{{Kind: "block", Text: "\nimport _ \"" + rapid.SampledFrom([]string{"embed", "unsafe", "net/http/pprof", "example.com/sidefx/register"}).Draw(t, "ownimportpath") + "\"\n"}}, pieces...)
+				feats["import-declaration-rendered-by-the-generator"] = true
+			}
 			g.Pieces[tk.pkg+"."+tk.typ] = pieces
 		}
 		if len(types) >= 2 && rapid.IntRange(0, 4).Draw(t, "ignoretype") == 0 {
@@ -320,7 +326,8 @@ func normComment(c string) string {
 }
 
 // bodyOffset returns the offset of the first byte after the package clause and the import declaration of a parsed file.
-func bodyOffset(src []byte) (int, string, []string, error) {
+// The last renderedImportDecls import declarations were rendered by the generator itself and belong to the body.
+func bodyOffset(src []byte, renderedImportDecls int) (int, string, []string, error) {
 	fset := token.NewFileSet()
 	f, err := parser.ParseFile(fset, "gen.go", src, parser.ParseComments|parser.AllErrors|parser.ImportsOnly)
 	if err != nil {
@@ -328,7 +335,10 @@ func bodyOffset(src []byte) (int, string, []string, error) {
 	}
 	end := f.Name.End()
 	var imports []string
-	for _, d := range f.Decls {
+	for i, d := range f.Decls {
+		if i >= len(f.Decls)-renderedImportDecls {
+			break
+		}
 		if d.End() > end {
 			end = d.End()
 		}
@@ -496,7 +506,11 @@ func checkCanonical(src []byte, gen, pkgName, rendered, goVersion, modPath strin
 	if rendered == "" {
 		return checkFixedPoints(src, goVersion, modPath)
 	}
-	off, _, _, err := bodyOffset(src)
+	ownImports := 0
+	if rf, err := parser.ParseFile(token.NewFileSet(), "rendered.go", "package p\n"+rendered, parser.ImportsOnly); err == nil {
+		ownImports = len(rf.Decls)
+	}
+	off, _, _, err := bodyOffset(src, ownImports)
 	if err != nil {
 		return fmt.Errorf("cannot locate the body: %v", err)
 	}
